@@ -4,6 +4,7 @@ import (
 	"fmt"
 	"go/ast"
 	"go/token"
+	"sort"
 	"strings"
 )
 
@@ -28,6 +29,8 @@ type ptrCfg struct {
 	valMeths  map[string]string // methods on values (e.g. IsInError) -> Lean function
 	skipCalls map[string]bool // methods called for their side effect on the log only
 	resFields [2]string       // names of the (action, cert) fields of the result literal
+	getters   map[string]string // receiver methods that only read a (configuration) field: method -> Lean field
+	paramTypes map[string]string // Go parameter type (as written) -> Lean type; pointer types make the parameter a pointer variable
 }
 
 type ptrTr struct {
@@ -145,6 +148,9 @@ func (t *ptrTr) expr(e ast.Expr) (string, error) {
 			return "", fmt.Errorf("unsupported call at %s", t.fset.Position(x.Pos()))
 		}
 		if id, ok := sel.X.(*ast.Ident); ok && id.Name == t.recv {
+			if fld, ok := t.cfg.getters[sel.Sel.Name]; ok {
+				return fmt.Sprintf("(pure %s.%s)", t.recv, fld), nil
+			}
 			if t.cfg.ptrFns[sel.Sel.Name] || t.cfg.errFns[sel.Sel.Name] {
 				return fmt.Sprintf("(%s_%s %s)", t.cfg.recvType, sel.Sel.Name, t.recv), nil
 			}
@@ -164,6 +170,17 @@ func (t *ptrTr) expr(e ast.Expr) (string, error) {
 
 func (t *ptrTr) ret(s *ast.ReturnStmt) (string, error) {
 	switch t.kind {
+	case "tuple":
+		var binds, names []string
+		for i, e := range s.Results {
+			x, err := t.expr(e)
+			if err != nil {
+				return "", err
+			}
+			binds = append(binds, fmt.Sprintf("let r%d__ ← %s", i, x))
+			names = append(names, fmt.Sprintf("r%d__", i))
+		}
+		return fmt.Sprintf("(do %s; pure (%s))", strings.Join(binds, "; "), strings.Join(names, ", ")), nil
 	case "ptr":
 		if len(s.Results) != 1 {
 			return "", fmt.Errorf("return arity")
@@ -276,8 +293,11 @@ func (t *ptrTr) stmts(list []ast.Stmt, depth int) (string, error) {
 		}
 		return "", fmt.Errorf("unsupported expression statement at %s", t.fset.Position(s.Pos()))
 	case *ast.AssignStmt:
-		if s.Tok != token.DEFINE || len(s.Lhs) != 1 || len(s.Rhs) != 1 {
+		if (s.Tok != token.DEFINE && s.Tok != token.ASSIGN) || len(s.Lhs) != 1 || len(s.Rhs) != 1 {
 			return "", fmt.Errorf("unsupported assignment at %s", t.fset.Position(s.Pos()))
+		}
+		if _, ok := s.Lhs[0].(*ast.Ident); !ok {
+			return "", fmt.Errorf("assignment to something that is not a local variable at %s", t.fset.Position(s.Pos()))
 		}
 		name := s.Lhs[0].(*ast.Ident).Name
 		v, err := t.expr(s.Rhs[0])
@@ -293,6 +313,36 @@ func (t *ptrTr) stmts(list []ast.Stmt, depth int) (string, error) {
 		}
 		return fmt.Sprintf("%s(do\n%s  let %s ← %s\n%s)", in, in, name, v, rest), nil
 	case *ast.IfStmt:
+		if vars, ok := assignOnly(s); ok && s.Init == nil {
+			// an `if` that only assigns local variables: the variables it may change are re-bound to the branch's result
+			c, err := t.expr(s.Cond)
+			if err != nil {
+				return "", err
+			}
+			tup := strings.Join(vars, ", ")
+			if len(vars) > 1 {
+				tup = "(" + tup + ")"
+			}
+			thenB, err := t.assignBlock(s.Body.List, tup, depth+3)
+			if err != nil {
+				return "", err
+			}
+			elseB := ind(depth+3) + "(pure " + tup + ")"
+			if s.Else != nil {
+				eb, ok := s.Else.(*ast.BlockStmt)
+				if !ok {
+					return "", fmt.Errorf("unsupported else at %s", t.fset.Position(s.Pos()))
+				}
+				if elseB, err = t.assignBlock(eb.List, tup, depth+3); err != nil {
+					return "", err
+				}
+			}
+			rest, err := t.stmts(list[1:], depth+1)
+			if err != nil {
+				return "", err
+			}
+			return fmt.Sprintf("%s(do\n%s  let %s ← (do\n%s    let c__ ← %s\n%s    if c__ then\n%s\n%s    else\n%s)\n%s)", in, in, tup, in, c, in, thenB, in, elseB, rest), nil
+		}
 		var cond string
 		if s.Init != nil {
 			// if err := i.check(); err != nil { … }
@@ -356,15 +406,120 @@ func (t *ptrTr) stmts(list []ast.Stmt, depth int) (string, error) {
 	return "", fmt.Errorf("unsupported statement %T at %s", list[0], t.fset.Position(list[0].Pos()))
 }
 
+// assignOnly: the statement (an if, recursively) contains nothing but assignments to local variables; returns them sorted
+func assignOnly(s ast.Stmt) ([]string, bool) {
+	seen := map[string]bool{}
+	var walk func(list []ast.Stmt) bool
+	walk = func(list []ast.Stmt) bool {
+		for _, st := range list {
+			switch x := st.(type) {
+			case *ast.AssignStmt:
+				if x.Tok != token.ASSIGN || len(x.Lhs) != 1 {
+					return false
+				}
+				id, ok := x.Lhs[0].(*ast.Ident)
+				if !ok {
+					return false
+				}
+				seen[id.Name] = true
+			case *ast.IfStmt:
+				if x.Init != nil || !walk(x.Body.List) {
+					return false
+				}
+				if x.Else != nil {
+					eb, ok := x.Else.(*ast.BlockStmt)
+					if !ok || !walk(eb.List) {
+						return false
+					}
+				}
+			default:
+				return false
+			}
+		}
+		return true
+	}
+	ifs, ok := s.(*ast.IfStmt)
+	if !ok || !walk([]ast.Stmt{ifs}) || len(seen) == 0 {
+		return nil, false
+	}
+	var out []string
+	for k := range seen {
+		out = append(out, k)
+	}
+	sort.Strings(out)
+	return out, true
+}
+
+// assignBlock: a list of assignments (and assignment-only ifs) followed by `pure <tuple of the joined variables>`
+func (t *ptrTr) assignBlock(list []ast.Stmt, tup string, depth int) (string, error) {
+	in := ind(depth)
+	if len(list) == 0 {
+		return in + "(pure " + tup + ")", nil
+	}
+	switch s := list[0].(type) {
+	case *ast.AssignStmt:
+		name := s.Lhs[0].(*ast.Ident).Name
+		v, err := t.expr(s.Rhs[0])
+		if err != nil {
+			return "", err
+		}
+		rest, err := t.assignBlock(list[1:], tup, depth+1)
+		if err != nil {
+			return "", err
+		}
+		return fmt.Sprintf("%s(do\n%s  let %s ← %s\n%s)", in, in, name, v, rest), nil
+	case *ast.IfStmt:
+		vars, _ := assignOnly(s)
+		c, err := t.expr(s.Cond)
+		if err != nil {
+			return "", err
+		}
+		inner := strings.Join(vars, ", ")
+		if len(vars) > 1 {
+			inner = "(" + inner + ")"
+		}
+		thenB, err := t.assignBlock(s.Body.List, inner, depth+3)
+		if err != nil {
+			return "", err
+		}
+		elseB := ind(depth+3) + "(pure " + inner + ")"
+		if s.Else != nil {
+			if elseB, err = t.assignBlock(s.Else.(*ast.BlockStmt).List, inner, depth+3); err != nil {
+				return "", err
+			}
+		}
+		rest, err := t.assignBlock(list[1:], tup, depth+1)
+		if err != nil {
+			return "", err
+		}
+		return fmt.Sprintf("%s(do\n%s  let %s ← (do\n%s    let c__ ← %s\n%s    if c__ then\n%s\n%s    else\n%s)\n%s)", in, in, inner, in, c, in, thenB, in, elseB, rest), nil
+	}
+	return "", fmt.Errorf("unsupported statement in an assignment block at %s", t.fset.Position(list[0].Pos()))
+}
+
 func (t *ptrTr) fn(fd *ast.FuncDecl, kind, retType string) (string, error) {
 	t.kind = kind
 	t.ptrVars = map[string]bool{}
 	t.recv = fd.Recv.List[0].Names[0].Name
+	params := ""
+	for _, p := range fd.Type.Params.List {
+		gt := typeString(p.Type)
+		lt, ok := t.cfg.paramTypes[gt]
+		if !ok {
+			return "", fmt.Errorf("%s: parameter type %s is not in the unit's table", fd.Name.Name, gt)
+		}
+		for _, n := range p.Names {
+			params += fmt.Sprintf(" (%s : %s)", n.Name, lt)
+			if strings.HasPrefix(gt, "*") {
+				t.ptrVars[n.Name] = true
+			}
+		}
+	}
 	body, err := t.stmts(fd.Body.List, 1)
 	if err != nil {
 		return "", fmt.Errorf("%s: %v", fd.Name.Name, err)
 	}
-	return fmt.Sprintf("def %s_%s (%s : %s) : Option %s :=\n%s\n", t.cfg.recvType, fd.Name.Name, t.recv, t.cfg.recvType, retType, body), nil
+	return fmt.Sprintf("def %s_%s (%s : %s)%s : Option %s :=\n%s\n", t.cfg.recvType, fd.Name.Name, t.recv, t.cfg.recvType, params, retType, body), nil
 }
 
 // iota constants of a named type, in declaration order
@@ -456,5 +611,54 @@ func initialStatusUnit(repo string, w *strings.Builder) error {
 		}
 		w.WriteString(src + "\n")
 	}
+	return nil
+}
+
+func typeString(e ast.Expr) string {
+	switch x := e.(type) {
+	case *ast.Ident:
+		return x.Name
+	case *ast.StarExpr:
+		return "*" + typeString(x.X)
+	case *ast.SelectorExpr:
+		return typeString(x.X) + "." + x.Sel.Name
+	}
+	return "?"
+}
+
+// unit FlowBase: aggsender/flows/flow_base.go — where the next certificate starts and how often it has been retried
+func flowBaseUnit(repo string, w *strings.Builder) error {
+	_, tf, err := parseOne(repo, "agglayer/types/types.go")
+	if err != nil {
+		return err
+	}
+	sts := iotaConsts(tf, "CertificateStatus")
+	if len(sts) == 0 {
+		return fmt.Errorf("CertificateStatus constants not found")
+	}
+	for i, s := range sts {
+		fmt.Fprintf(w, "def %s : Nat := %d\n", s, i)
+	}
+	w.WriteString("\n")
+	fset, af, err := parseOne(repo, "aggsender/flows/flow_base.go")
+	if err != nil {
+		return err
+	}
+	// the getter the function calls must be the plain field read the table below says it is
+	if g := findFunc(af, "baseFlow", "StartL2Block"); g == nil || len(g.Body.List) != 1 || nodeStr(fset, g.Body.List[0]) != "return f.cfg.StartL2Block" {
+		return fmt.Errorf("baseFlow.StartL2Block is no longer `return f.cfg.StartL2Block`")
+	}
+	t := &ptrTr{fset: fset, cfg: ptrCfg{recvType: "baseFlow", ptrFields: set(), ptrFns: set(), errFns: set(), skipCalls: set(),
+		valMeths: map[string]string{}, getters: map[string]string{"StartL2Block": "StartL2Block"},
+		paramTypes: map[string]string{"*types.CertificateHeader": "Option SentHdr"}}}
+	fd := findFunc(af, "baseFlow", "getLastSentBlockAndRetryCount")
+	if fd == nil {
+		return fmt.Errorf("baseFlow.getLastSentBlockAndRetryCount not found (renamed or removed?)")
+	}
+	src, err := t.fn(fd, "tuple", "(Nat × Nat)")
+	if err != nil {
+		return err
+	}
+	w.WriteString(src + "\n")
 	return nil
 }
